@@ -26,3 +26,83 @@ package recordio
 //@   ensures [err] r0 == wrSeekErr(this, old(wrSeeks(this)))
 //@   ensures [moved] r0 == nil ==> wrSize(this) == offset
 //@   modifies wrSeeks(this), wrSize(this)
+
+// ---------------------------------------------------------------------------------------------------
+// The buffered stream below a FileWriter (WriteSeekerCloserFlusher): bwPos(b) - logical position of the next byte,
+// bwFlushed(b) - true when everything written so far has been handed to the file.
+
+//@ ghost bwPos(b Ref) Int
+//@ ghost bwFlushed(b Ref) Bool
+
+//@ iface WriteSeekerCloserFlusher.Write
+//@   ensures [count] 0 <= r0 && r0 <= len(a0)
+//@   ensures [all-or-error] r1 == nil ==> r0 == len(a0) && bwPos(this) == old(bwPos(this)) + len(a0)
+//@   modifies bwPos(this), bwFlushed(this)
+
+//@ iface WriteSeekerCloserFlusher.Flush
+//@   ensures r0 == nil ==> bwFlushed(this) && bwPos(this) == old(bwPos(this))
+//@   modifies bwFlushed(this)
+
+//@ iface WriteSeekerCloserFlusher.Seek
+//@   ensures r1 == nil && a1 == 0 ==> r0 == a0 && bwPos(this) == a0
+//@   modifies bwPos(this), bwFlushed(this)
+
+// hw(w): the high-water mark - the largest offset up to which the file may hold bytes of earlier writes.
+//@ spec func hw(w *FileWriter) Int = max(w.largestOffset, w.currentOffset)
+
+//@ func (*FileWriter).Size
+//@   props C04 C15
+//@   ensures r0 == w.currentOffset
+//@   modifies nothing
+
+//@ func writeRecordHeaderV4
+//@   assumed
+//@   requires writer.bufWriter != nil
+//@   ensures r1 == nil ==> 5 <= r0 && r0 <= 36 && bwPos(writer.bufWriter) == old(bwPos(writer.bufWriter)) + r0
+//@   ensures r1 != nil ==> r0 == 0
+//@   modifies bwPos(writer.bufWriter), bwFlushed(writer.bufWriter), writer.recordHeaderCache[*]
+
+//@ func (*FileWriter).Write
+//@   props C04 C15 C20 C07
+//@   replay file_writer_programs
+//@   requires w.bufWriter != nil && (w.compressor != nil ==> w.bufferPool != nil) && w.file != nil
+//@   requires w.currentOffset < 4611686018427387904 && len(record) < 4611686018427387904
+//@   ensures [returns-start-offset] r1 == nil ==> r0 == old(w.currentOffset) && w.currentOffset > old(w.currentOffset)
+//@   ensures [failed-write-keeps-offset] r1 != nil ==> w.currentOffset == old(w.currentOffset) && w.largestOffset == old(w.largestOffset)
+//@   ensures [high-water-mark-covers-the-write] r1 == nil ==> hw(w) == max(old(hw(w)), w.currentOffset)
+//@   ensures [closed-writer-rejects] (!old(w.open) || old(w.closed)) ==> r1 != nil && bwPos(w.bufWriter) == old(bwPos(w.bufWriter))
+//@   ensures [offset-follows-stream] r1 == nil ==> w.currentOffset - old(w.currentOffset) == bwPos(w.bufWriter) - old(bwPos(w.bufWriter))
+//@   call 0 of writeRecordHeaderV4: assert [C20,C04:header-carries-the-record-lengths] arg1 == len(record) && arg3 == isnil(record) &&
+//@        (w.compressor == nil ==> arg2 == 0)
+//@   modifies w.currentOffset, w.largestOffset, bwPos(w.bufWriter), bwFlushed(w.bufWriter), w.recordHeaderCache[*]
+
+//@ func (*FileWriter).Seek
+//@   props C04 C15 C20
+//@   replay file_writer_programs
+//@   requires w.bufWriter != nil && offset < 4611686018427387904
+//@   ensures [rejects-header-range] offset < old(w.headerOffset) ==> r0 != nil
+//@   ensures [rejects-beyond-size] offset > old(w.currentOffset) ==> r0 != nil
+//@   ensures [failed-seek-changes-nothing] r0 != nil ==> w.currentOffset == old(w.currentOffset) && w.largestOffset == old(w.largestOffset)
+//@   ensures [moves-to-offset] r0 == nil ==> w.currentOffset == offset && bwPos(w.bufWriter) == offset
+//@   ensures [C04,C15,C20:high-water-mark-kept] r0 == nil ==> hw(w) == old(hw(w))
+//@   modifies w.currentOffset, w.largestOffset, bwPos(w.bufWriter), bwFlushed(w.bufWriter)
+
+//@ func (*FileWriter).WriteSync
+//@   props C07 C02 C04
+//@   requires w.bufWriter != nil && (w.compressor != nil ==> w.bufferPool != nil) && w.file != nil
+//@   requires w.currentOffset < 4611686018427387904 && len(record) < 4611686018427387904
+//@   exit [C07,C02:flushed-and-synced-before-return] r1 == nil ==> called(FileWriter.Write, 0) && callres(FileWriter.Write, 0, 1) == nil &&
+//@        called(WriteSeekerCloserFlusher.Flush, 0) && callres(WriteSeekerCloserFlusher.Flush, 0, 0) == nil &&
+//@        called(File.Sync, 0) && callres(File.Sync, 0, 0) == nil
+//@   ensures [C07,C02:everything-handed-to-the-file] r1 == nil ==> bwFlushed(w.bufWriter)
+//@   call 0 of File.Sync: assert [C07,C02:flush-precedes-sync] bwFlushed(w.bufWriter)
+
+//@ func (*FileWriter).Close
+//@   props C04 C15 C19 C07
+//@   replay file_writer_programs
+//@   requires w.bufWriter != nil && w.file != nil && w.currentOffset < 4611686018427387904
+//@   exit [C04,C15:stale-tail-truncated] r0 == nil && old(hw(w)) > old(w.currentOffset) ==> called(File.Truncate, 0) && callres(File.Truncate, 0, 0) == nil
+//@   call 0 of File.Truncate: assert [C04,C15:truncates-to-current-offset] arg0 == w.currentOffset && bwFlushed(w.bufWriter)
+//@   exit [C19:file-closed] r0 == nil ==> called(File.Close, 0) && callres(File.Close, 0, 0) == nil
+//@   exit [C04,C07:buffer-flushed] r0 == nil ==> called(WriteSeekerCloserFlusher.Flush, 0) && callres(WriteSeekerCloserFlusher.Flush, 0, 0) == nil
+//@   ensures [marked-closed] w.closed && !w.open
